@@ -1049,9 +1049,22 @@ class Watcher(object):
                     self.spawn_process()
                     yield tornado_sleep(self.warmup_delay)
             else:
+                old_pids = set(self.processes)
                 for i in range(self.numprocesses):
                     self.spawn_process()
                 yield self.manage_processes()
+                # the surplus is trimmed by count: when a process of the
+                # new generation has died meanwhile, one of the old
+                # generation is still there.  Replace it too: one in, one
+                # out, as long as a replacement can be spawned
+                stale = [p for p in self.processes.values()
+                         if p.pid in old_pids]
+                for process in stale:
+                    if not self.spawn_process():
+                        break
+                    removed = yield self.kill_process(process)
+                    if removed:
+                        self.processes.pop(process.pid, None)
         self.notify_event("reload", {"time": time.time()})
         logger.info('%s reloaded', self.name)
 
